@@ -6,6 +6,7 @@ import (
 	"math/rand"
 	"net/http"
 	"net/url"
+	"regexp"
 	"strings"
 
 	"github.com/muhlemmer/httpforwarded"
@@ -169,6 +170,14 @@ func Run(dir, tier string, seed int64) error {
 								fail("forwarded-host-with-path-characters", fmt.Sprintf("issuer %q: the forwarded host value %q carries path / query / fragment characters into the issuer", obs, h))
 							}
 						}
+						// independent reference for syntactically simple header values: the first host parameter, scanning the
+						// configured headers in order and, within a header, its lines and elements in order; else the Host
+						if want, ok := referenceHost(headers, spec.Header, host); ok {
+							run.Count("derived-reference-applicable")
+							if obs != scheme+want+wantPath {
+								fail("derived-issuer-not-first-forwarded-host-else-host", fmt.Sprintf("issuer %q, expected %q", obs, scheme+want+wantPath))
+							}
+						}
 						if id%97 == 1 {
 							run.Sample(desc)
 						}
@@ -178,6 +187,34 @@ func Run(dir, tier string, seed int64) error {
 			}
 		}
 	}
-	run.Res.Rule = "static: 56 hand-picked issuer strings (scheme case, userinfo, ports, IPv6 literals, empty hosts, opaque and relative URLs, control characters, empty / non-empty query and fragment, percent escapes) plus random concatenations of URL pieces, x insecure on/off, through ValidateIssuer and NewProvider(StaticIssuer); url.Parse supplies the components to the model; the oracle checks the accepted strings themselves. derived: providers built with IssuerFromHost / IssuerFromForwardedOrHost (default and custom header lists) x 5 paths x insecure x 4 Host values x 12 Forwarded header shapes (multiple headers, multiple elements, quoted hosts, malformed syntax); the entityID served at /metadata is compared with the model formula (header syntax parsed by httpforwarded as oracle). distinct = input class."
+	run.Res.Rule = "static: 56 hand-picked issuer strings (scheme case, userinfo, ports, IPv6 literals, empty hosts, opaque and relative URLs, control characters, empty / non-empty query and fragment, percent escapes) plus random concatenations of URL pieces, x insecure on/off, through ValidateIssuer and NewProvider(StaticIssuer); url.Parse supplies the components to the model; the oracle checks the accepted strings themselves. derived: providers built with IssuerFromHost / IssuerFromForwardedOrHost (default and custom header lists) x 5 paths x insecure x 4 Host values x 12 Forwarded header shapes (multiple headers, multiple elements, quoted hosts, malformed syntax); the entityID served at /metadata is compared with the model formula (header syntax parsed by httpforwarded as oracle) and, for syntactically simple header values, with an independent reference (first host parameter over headers, lines and elements in order, else Host). distinct = input class."
 	return run.Finish()
+}
+
+var simplePair = regexp.MustCompile(`^[A-Za-z]+=("[^"\\]+"|[^;,\s"=]+)$`)
+
+// referenceHost is an independent reading of RFC 7239 for header values made only of name=token / name="quoted" pairs;
+// ok is false when any configured header line is outside that fragment (then the parse oracle decides alone).
+func referenceHost(headers []string, hdr map[string][]string, requestHost string) (string, bool) {
+	for _, h := range headers {
+		var hosts []string
+		for _, line := range hdr[http.CanonicalHeaderKey(h)] {
+			for _, el := range strings.Split(line, ",") {
+				for _, pair := range strings.Split(el, ";") {
+					pair = strings.TrimSpace(pair)
+					if !simplePair.MatchString(pair) {
+						return "", false
+					}
+					kv := strings.SplitN(pair, "=", 2)
+					if strings.EqualFold(kv[0], "host") {
+						hosts = append(hosts, strings.Trim(kv[1], `"`))
+					}
+				}
+			}
+		}
+		if len(hosts) > 0 {
+			return hosts[0], true
+		}
+	}
+	return requestHost, true
 }
